@@ -50,7 +50,9 @@ type FSPlan struct {
 	NewSize  int    `json:"new_size"`
 	Explicit bool   `json:"explicit_tmp,omitempty"` // caller-specified temp dir
 	Readers  int    `json:"readers"`
-	Twin     bool   `json:"twin,omitempty"` // unpackzip: additionally two overlapping unpack calls for the same archive (no faults)
+	Twin     bool   `json:"twin,omitempty"` // additionally two overlapping calls (no faults): unpackzip: the same archive; file primitives: two writers with different content for the same destination
+	Corrupt  bool   `json:"corrupt,omitempty"` // unpackzip: additionally an archive one of whose entries is cut off: nothing may be published
+	corruptArchive bool // set on a copy of the plan while the damaged archive is prepared
 	Mode     int    `json:"mode,omitempty"` // requested mode index
 	Net      []int  `json:"net,omitempty"`  // fetch: behaviour of the download transport per attempt (0 ok, 1 truncated body, 2 error mid-body, 3 status 500, 4 body longer than announced, 5 unknown length and connection dropped half way)
 }
@@ -79,7 +81,12 @@ func (H) Generate(prop string, rng *rand.Rand, tier string) any {
 	}
 	if p.Prim == "unpackzip" {
 		p.Twin = rng.IntN(2) == 0
+		p.Corrupt = rng.IntN(2) == 0
 		p.Dest = 0
+	}
+	switch p.Prim {
+	case "writefile", "tempfile", "createatomic", "copyatomic", "replaceatomic", "fstreeput":
+		p.Twin = rng.IntN(3) == 0
 	}
 	if tier == "thorough" && rng.IntN(6) == 0 {
 		p.NewSize = 4
@@ -310,6 +317,18 @@ func (H) Execute(prop string, plan any, rc *simkit.RunCtx) {
 			return
 		}
 	}
+	if p.Corrupt && p.Prim == "unpackzip" && p.Dest == 0 {
+		if !corruptUnpack(p, rc, setup(), newData) {
+			e.cleanup()
+			return
+		}
+	}
+	if p.Twin && p.Prim != "unpackzip" {
+		if !twinWriters(p, rc, setup, oldState, newState, newData) {
+			e.cleanup()
+			return
+		}
+	}
 	e.cleanup()
 	rc.H("%s dest=%d old=%d new=%d calls=%d", p.Prim, p.Dest, p.OldSize, p.NewSize, nmut)
 	var nWrites int
@@ -356,6 +375,19 @@ func (H) Execute(prop string, plan any, rc *simkit.RunCtx) {
 	}
 	for _, k := range points {
 		cases = append(cases, faultCase{simfs.Plan{CrashAt: k, ErrAt: -1, ShortAt: -1}, fmt.Sprintf("crash@%d", k)})
+	}
+	// a rename can also fail because the temporary location is on another file system
+	{
+		k := 0
+		for _, c := range calls {
+			if !c.Mut {
+				continue
+			}
+			if c.Op == "rename" {
+				cases = append(cases, faultCase{simfs.Plan{CrashAt: -1, ErrAt: k, Errno: syscall.EXDEV, ShortAt: -1}, fmt.Sprintf("err@%d(%v)", k, syscall.EXDEV)})
+			}
+			k++
+		}
 	}
 	for _, k := range points {
 		for _, en := range []syscall.Errno{syscall.ENOSPC, syscall.EIO} {
@@ -477,6 +509,175 @@ func twinUnpack(p *FSPlan, rc *simkit.RunCtx, e *fsEnv, newData []byte, newState
 		return false
 	}
 	return true
+}
+
+// corruptUnpack: an archive with one good entry and one whose compressed stream is cut off. Unpacking must fail and
+// the destination must stay absent at every instant.
+func corruptUnpack(p *FSPlan, rc *simkit.RunCtx, e *fsEnv, newData []byte) bool {
+	defer e.cleanup()
+	q := *p
+	q.corruptArchive = true
+	_, res, err := prepareRegistry(&q, e, newData)
+	if err != nil {
+		rc.Fail("C17.harness", "corrupt archive set-up failed", err.Error())
+		return false
+	}
+	simfs.Begin(simfs.Plan{CrashAt: -1, ErrAt: -1, ShortAt: -1}, e.tmp)
+	stop := false
+	var rwg sync.WaitGroup
+	seen := ""
+	for r := 0; r < 1+p.Readers; r++ {
+		rwg.Add(1)
+		go func() {
+			defer rwg.Done()
+			for i := 0; i < 600 && !stop; i++ {
+				simrt.Yield("reader")
+				if st, ok := readState(p, e); ok && seen == "" {
+					seen = st
+				}
+			}
+		}()
+	}
+	uerr := res.UnpackArchive()
+	stop = true
+	rwg.Wait()
+	_, _, _ = simfs.End()
+	rc.Probe("corrupt-archive-unpack")
+	if seen != "" {
+		rc.Fail("C17.reader-partial", "a concurrent reader observed a destination although the archive is damaged (unpackzip)", seen)
+		return false
+	}
+	if st, ok := readState(p, e); ok {
+		rc.Fail("C17.dest-fragment", "unpacking a damaged archive published a destination (unpackzip, cut-off entry)", fmt.Sprintf("error: %v; destination: %s", uerr, st))
+		return false
+	}
+	if uerr == nil {
+		rc.Fail("C17.silent-failure", "unpacking a damaged archive reported success (unpackzip, cut-off entry)", "")
+		return false
+	}
+	return true
+}
+
+// twinWriters: two overlapping invocations of the primitive for the same destination with different new content, plus
+// readers. At every instant the destination shows the old state or one of the two complete new states, and one of
+// the new states after both have returned.
+func twinWriters(p *FSPlan, rc *simkit.RunCtx, setup func() *fsEnv, oldState, newStateA string, dataA []byte) bool {
+	dataB := content('B', len(dataA)+3)
+	// what the destination looks like after a lone write of the second content
+	eb := setup()
+	_ = os.WriteFile(eb.src, dataB, 0o640)
+	if err, _, _, _ := runPrimitive(p, eb, dataB, simfs.Plan{CrashAt: -1, ErrAt: -1, ShortAt: -1}); err != nil {
+		eb.cleanup()
+		rc.Fail("C17.fault-free-error", "the primitive failed without any injected fault ("+p.Prim+")", err.Error())
+		return false
+	}
+	newStateB, _ := readState(p, eb)
+	eb.cleanup()
+	e := setup()
+	defer e.cleanup()
+	// the second writer copies from its own source file
+	srcB := e.src + ".b"
+	_ = os.WriteFile(srcB, dataB, 0o640)
+	simfs.Begin(simfs.Plan{CrashAt: -1, ErrAt: -1, ShortAt: -1}, e.tmp)
+	stop := false
+	var wg, rwg sync.WaitGroup
+	readerFail := ""
+	for r := 0; r < 1+p.Readers; r++ {
+		rwg.Add(1)
+		go func() {
+			defer rwg.Done()
+			for i := 0; i < 600 && !stop; i++ {
+				simrt.Yield("reader")
+				st, ok := readState(p, e)
+				if !ok {
+					if p.Dest != 0 && readerFail == "" {
+						readerFail = "a reader found the destination missing although it existed before the operation"
+					}
+					continue
+				}
+				if st != oldState && st != newStateA && st != newStateB && readerFail == "" {
+					readerFail = "a concurrent reader observed a destination that is neither the complete old content nor one of the two complete new contents"
+				}
+			}
+		}()
+	}
+	errs := make([]error, 2)
+	for k := 0; k < 2; k++ {
+		k := k
+		wg.Add(1)
+		go func() {
+			defer wg.Done()
+			data, src := dataA, e.src
+			if k == 1 {
+				data, src = dataB, srcB
+			}
+			errs[k] = runWrite(p, e, data, src)
+		}()
+	}
+	wg.Wait()
+	stop = true
+	rwg.Wait()
+	_, _, _ = simfs.End()
+	rc.Probe("twin-writers")
+	if readerFail != "" {
+		rc.Fail("C17.reader-partial", readerFail+" (two overlapping "+p.Prim+" calls)", fmt.Sprintf("errors: %v / %v", errs[0], errs[1]))
+		return false
+	}
+	st, ok := readState(p, e)
+	switch {
+	case !ok:
+		rc.Fail("C17.dest-lost", "after two overlapping writes the destination is gone ("+p.Prim+")", fmt.Sprintf("errors: %v / %v", errs[0], errs[1]))
+		return false
+	case errs[0] == nil && errs[1] == nil && st != newStateA && st != newStateB:
+		rc.Fail("C17.dest-fragment", "after two overlapping writes the destination holds neither of the two complete new contents ("+p.Prim+")", fmt.Sprintf("state %s", st))
+		return false
+	case st != oldState && st != newStateA && st != newStateB:
+		rc.Fail("C17.dest-fragment", "after two overlapping writes the destination holds neither the old nor one of the two complete new contents ("+p.Prim+")", fmt.Sprintf("state %s errors: %v / %v", st, errs[0], errs[1]))
+		return false
+	}
+	return true
+}
+
+// runWrite performs one invocation of a file primitive (no fault plan handling: the caller has begun the seam).
+func runWrite(p *FSPlan, e *fsEnv, data []byte, src string) (err error) {
+	tmpDir := ""
+	if p.Explicit {
+		tmpDir = e.exp
+	}
+	mode := []os.FileMode{0, 0o600, 0o644}[p.Mode]
+	switch p.Prim {
+	case "writefile":
+		m := mode
+		if m == 0 {
+			m = 0o644
+		}
+		return renameio.WriteFile(e.dest, data, m)
+	case "tempfile":
+		t, terr := renameio.TempFile(tmpDir, e.dest)
+		if terr != nil {
+			return terr
+		}
+		defer t.Cleanup() //nolint:errcheck
+		if _, err = t.Write(data); err == nil {
+			err = t.CloseAtomicallyReplace()
+		}
+		return err
+	case "createatomic":
+		return utils.CreateAtomic(e.dest, bytes.NewReader(data), &utils.AtomicFileOptions{Mode: mode, TempDir: tmpDir})
+	case "copyatomic":
+		return utils.CopyFileAtomic(e.dest, src, &utils.AtomicFileOptions{Mode: mode, TempDir: tmpDir})
+	case "replaceatomic":
+		return utils.ReplaceFileAtomic(e.dest, src, &utils.AtomicFileOptions{Mode: mode, TempDir: tmpDir})
+	case "fstreeput":
+		s, serr := fstree.NewFSTree("simdb", e.root)
+		if serr != nil {
+			return serr
+		}
+		w, _ := record.NewWrapper("simdb:sub/dest.bin", &record.Meta{}, dsd.RAW, data)
+		_, err = s.Put(w)
+		return err
+	}
+	return nil
 }
 
 func lastCalls(calls []simfs.Call) string {
